@@ -520,6 +520,50 @@ func driveC12(o opts) error {
 		}
 		w.Count("roundtrip:error")
 	}
+	// result -> error -> result: name and details survive, for the names RFC 7047 lists and for any other
+	for _, name := range []string{"referential integrity violation", "constraint violation", "resources exhausted", "I/O error", "duplicate uuid name",
+		"domain error", "range error", "timed out", "not supported", "aborted", "not owner", "custom error", "syntax error", "unknown database"} {
+		for _, details := range []string{"", "some details"} {
+			r0 := ovsdb.OperationResult{Error: name, Details: details}
+			errs, _ := ovsdb.CheckOperationResults([]ovsdb.OperationResult{r0}, []ovsdb.Operation{{Op: "insert"}})
+			if len(errs) != 1 {
+				goFail("error", fmt.Sprintf("result {error: %q} is not an error", name), nil)
+				continue
+			}
+			e, ok := errs[0].(error)
+			if !ok {
+				goFail("error", fmt.Sprintf("result {error: %q} gives %T, not an error", name, errs[0]), nil)
+				continue
+			}
+			r1 := ovsdb.ResultFromError(e)
+			if r1.Error != name || r1.Details != details {
+				goFail("error", fmt.Sprintf("result {error: %q, details: %q} becomes error %T and that becomes result {error: %q, details: %q}", name, details, e, r1.Error, r1.Details), nil)
+				continue
+			}
+			w.Count("roundtrip:result-error-result")
+		}
+	}
+	// a monitor request with a column list that is present but empty (no columns) is not one without a list (all columns)
+	{
+		b, err := json.Marshal(ovsdb.MonitorRequest{Columns: []string{}})
+		var back ovsdb.MonitorRequest
+		if err == nil {
+			err = json.Unmarshal(b, &back)
+		}
+		var none ovsdb.MonitorRequest
+		b0, _ := json.Marshal(ovsdb.MonitorRequest{})
+		_ = json.Unmarshal(b0, &none)
+		switch {
+		case err != nil:
+			goFail("monitor-request", fmt.Sprintf("monitor request with an empty column list: %v", err), nil)
+		case back.Columns == nil:
+			goFail("monitor-request", fmt.Sprintf("monitor request {columns: []} is encoded as %s and decodes to a request without a column list (every column)", b), nil)
+		case none.Columns != nil:
+			goFail("monitor-request", fmt.Sprintf("monitor request without a column list is encoded as %s and decodes to a request with one", b0), nil)
+		default:
+			w.Count("roundtrip:monitor-request-empty-columns")
+		}
+	}
 	w.Extra["implementation_failures"] = goFails
 	if len(goFails) > 0 {
 		f := goFails[0]
